@@ -68,6 +68,7 @@ struct ETrivT {
 };
 typedef ETrivT<int> ETriv;
 typedef ETrivT<int16_t> ETrivS;  // 4 bytes: two slots overlap the heap pointer of a SmallVector
+typedef ETrivT<int8_t> ETrivB;   // 2 bytes: four slots overlap the heap pointer (keys and payloads stay below 128)
 
 // ------------------------------------------------------------------------------------------------ ETr
 struct ETr {
